@@ -55,6 +55,8 @@ def instr_text(ins):
         return "susp %s" % instr_text(ins["then"])
     if i in ("csend", "cqueue"):
         return "%s /%s %d" % (i, ins["target"], ins["v"])
+    if i == "trigstop":
+        return "trigstop"
     raise ValueError(ins)
 
 
